@@ -39,6 +39,10 @@ type udpMuxedConn struct {
 	readWaiting atomic.Int32
 	closed      bool
 	mu          sync.Mutex
+	// registerMu serializes the first write to a new address: the address is listed in
+	// addresses before the mux knows it, and a concurrent writer that finds it listed must
+	// not put its datagram on the wire before the mux routes the answer here.
+	registerMu sync.Mutex
 
 	// refs counts outstanding sharedPacketConn wrappers handed out by the mux.
 	refs atomic.Int32
@@ -174,6 +178,8 @@ func (c *udpMuxedConn) WriteToAddrPort(buf []byte, rAddr netip.AddrPort) (n int,
 // writes to it.
 func (c *udpMuxedConn) registerAddress(addr netip.AddrPort) {
 	verifhook.Yield("udpmuxed.registerAddress.entry")
+	c.registerMu.Lock()
+	defer c.registerMu.Unlock()
 	if !c.containsAddress(addr) {
 		c.addAddress(addr)
 	}
